@@ -19,7 +19,11 @@
       utils.JobsOrderByQueues hands out, pop by pop, after the real
       InitializeWithJobs over the session's pod groups (options of the allocate
       action), and [pops] the jobs the allocate action itself attempted, in
-      order (one call of the job-level capacity gate per popped job). *)
+      order (one call of the job-level capacity gate per popped job).
+      Every job carries [j_last_start], the PodGroupInfo.LastStartTimestamp the
+      scheduler holds (given through the real SetPodGroup from the annotation
+      kai.scheduler/last-start-timestamp); the model's order does not read it and
+      no monitor does. *)
 From KaiV Require Export Run.Prelude Model.JobOrder Model.JobOrderSpec Model.QuotaGate Model.QuotaGateSpec.
 Open Scope Z_scope.
 
@@ -47,7 +51,7 @@ Inductive case :=
 
 Definition set_prio (j : job) (p : Z) : job :=
   {| j_uid := j_uid j; j_queue := j_queue j; j_prio := p; j_subgroups := j_subgroups j;
-     j_ctime := j_ctime j; j_shape := j_shape j; j_pre := j_pre j; j_req := j_req j |}.
+     j_ctime := j_ctime j; j_shape := j_shape j; j_pre := j_pre j; j_req := j_req j; j_last_start := j_last_start j |}.
 
 Definition oz_eqb (a b : option Z) : bool :=
   match a, b with
@@ -285,13 +289,34 @@ Definition attempt_order_ok (jobs : list job) (pops : list Z) : bool :=
              || forallb (fun a => negb (comparable a b && job_less a b) || seen_before (j_uid a) (j_uid b) pops) jobs)
           jobs.
 
+(** FIFO, read directly (not through [job_less]) and whatever the last-start
+    stamps ([j_last_start] is not looked at): of two comparable workloads of equal
+    priority and equal elastic state, the one created earlier is handed out by the
+    collection first, attempted first, and placed whenever the other one is *)
+Definition mas_eqb (a b : job) : bool :=
+  let '(ab, aa, ae) := min_available_state a in
+  let '(bb, ba, be) := min_available_state b in
+  Bool.eqb ab bb && Bool.eqb aa ba && Bool.eqb ae be.
+
+Definition fifo_pair (a b : job) : bool :=
+  comparable a b && (j_prio a =? j_prio b) && mas_eqb a b && (j_ctime a <? j_ctime b).
+
+Definition fifo_monitor (jobs : list job) (order coll pops : list Z) : bool :=
+  forallb (fun b =>
+     forallb (fun a =>
+        negb (fifo_pair a b)
+        || ((negb (memz (j_uid b) order) || memz (j_uid a) order)
+            && (negb (memz (j_uid b) coll) || seen_before (j_uid a) (j_uid b) coll)
+            && (negb (memz (j_uid b) pops) || seen_before (j_uid a) (j_uid b) pops))) jobs) jobs.
+
 (** a job is placed only by an attempt *)
 Definition placed_were_attempted (order pops : list Z) : bool := forallb (fun u => memz u pops) order.
 
 Definition collection_monitor (qs : list qinfo) (depth : Z) (jobs : list job) (order coll pops : list Z) : bool :=
   popped_exactly_eligible qs depth jobs coll && popped_exactly_eligible qs depth jobs pops
   && attempt_order_ok jobs coll && attempt_order_ok jobs pops
-  && placed_were_attempted order pops.
+  && placed_were_attempted order pops
+  && fifo_monitor jobs order coll pops.
 
 (** the real gates do not tell identical workloads apart: the verdicts observed at
     session open are equal on every comparable pair, whatever the priorities *)
